@@ -132,6 +132,7 @@ let run_apply id =
   let fk = next_bool () in
   let tx = next_int () in          (* 0 on the connection, 1 through OpenTx, 2 inside a plain transaction *)
   let k = next_int () in
+  let show_fk = next_bool () in
   let nt = next_int () in
   let tabs = times nt parse_table in
   let nc = next_int () in
@@ -161,7 +162,7 @@ let run_apply id =
     match schema_apply conv genv (if tx = 1 then TxFile else TxNone) d cs with
     | None -> Printf.printf "%s res planerr\n" id
     | Some (_, Some e) -> Printf.printf "%s res %s\n" id (err_name e)
-    | Some (d', None) -> show "ok" d'
+    | Some (d', None) -> show "ok" d'; if show_fk then Printf.printf "%s fk %d\n" id (if d'.d_fk then 1 else 0)
   end
 
 let hn b = hexs (string_of_bytes b)
